@@ -36,6 +36,8 @@ Laws ==
   /\ Check("round trip spill", U, LAMBDA i : D.rtSpill[i] = 1)
   /\ Check("round trip WAL", U, LAMBDA i : D.rtWal[i] = 1)
   /\ Check("round trip snapshot", U, LAMBDA i : D.rtSnap[i] = 1)
+  \* snapshots of several megabytes made of many small values (the decoder's allocation budget grows with their number)
+  /\ Check("round trip snapshot, dense values", DOMAIN D.rtSnapBig, LAMBDA i : D.rtSnapBig[i] = 1)
   /\ Check("sort / DISTINCT / GROUP BY keep equal values together", 1..Len(D.grp), LAMBDA i : D.grp[i] = 1)
 Init == l = 0
 Next == l = 0 /\ Laws /\ l' = 1
